@@ -1400,131 +1400,365 @@ Proof.
     + destruct (IHws (last_or us a0)) as (g & Hf & Hg). rewrite Hf. exists g. split; auto.
 Qed.
 
-(* the update of reduce/foreach: store $x, load the accumulator, run the update as a generator *)
-Lemma upd_inner : forall qu, Impl qu -> forall sc cur base, frameOK sc cur base ->
-  forall ce x n2 p2 sn cu n3 sn',
-  comp qu (add_var ce x (cur, n2)) cur (S (S p2)) (S n2) sn = Some (cu, n3, sn') -> code_at (S (S p2)) cu ->
-  forall accs, at_ p2 (Istore (cur, n2)) -> at_ (S p2) (Iload (cur, accs)) ->
-  forall rho w a st fk vs n n0 o g lim, accs < n2 -> lim <= base + n2 ->
-  envOK sc ce rho vs n0 lim -> n0 <= n -> base + n3 <= o -> o <= length vs -> nth_error vs (base + accs) = Some (SV a) ->
-  exists vs1, update vs (base + n2) (SV w) = Some vs1 /\
-  steps (N sc p2 (SV w :: st) fk vs n o g) (N sc (S (S p2)) (SV a :: st) fk vs1 n o g) /\
-  envOK sc (add_var ce x (cur, n2)) ((x, BV w) :: rho) vs1 n0 (base + S n2) /\ nth_error vs1 (base + accs) = Some (SV a) /\
-  let c1 := ctx_of sc (S (S p2) + length cu) st fk (base + S n2) (base + n3) o o
-              (fun i => base + S n2 <= i < base + n3 \/ kept sc (add_var ce x (cur, n2)) i) (fun _ => False) (add_var ce x (cur, n2)) n0 (ctr g) in
-  G c1 (fst (den qu ((x, BV w) :: rho) a)) (Tend c1 (snd (den qu ((x, BV w) :: rho) a)) (fun _ _ _ => True))
-               (N sc (S (S p2)) (SV a :: st) fk vs1 n o g).
+(* the variables bound by a pattern hold the values of its bindings (parallel lists, the last binding first) *)
+Definition bound_ok (base cur lo hi : nat) (vs : list sv) (b : list (vname * var)) (bnds : venv) : Prop :=
+  Forall2 (fun cb sb => fst cb = fst sb /\ exists k w, snd cb = (cur, k) /\ lo <= k < hi /\ snd sb = BV w /\
+                        nth_error vs (base + k) = Some (SV w)) b bnds.
+Lemma bound_ok_mono : forall base cur lo hi lo' hi' vs vs' b bnds, bound_ok base cur lo hi vs b bnds -> lo' <= lo -> hi <= hi' ->
+  (forall k, lo <= k < hi -> nth_error vs' (base + k) = nth_error vs (base + k)) -> bound_ok base cur lo' hi' vs' b bnds.
 Proof.
-  intros qu IHu sc cur base Hfr ce x n2 p2 sn cu n3 sn' Eu Hatu accs A0 A1 rho w a st fk vs n n0 o g lim Hacc Hlim HE Hn Ho Hl Ha. pose proof (frameOK_cur _ _ _ Hfr) as Hcur.
-  destruct (comp_mono _ _ _ _ _ _ _ _ _ Eu) as [M _].
-  destruct (update_some vs (base + n2) (SV w)) as [vs1 U]; [lia|]. exists vs1. split; [exact U|].
-  destruct (update_spec _ _ _ _ U) as (UL & UN & UO).
-  assert (Ha1 : nth_error vs1 (base + accs) = Some (SV a)) by (rewrite UO; [auto|lia]).
-  assert (HE1 : envOK sc (add_var ce x (cur, n2)) ((x, BV w) :: rho) vs1 n0 (base + S n2)).
-  { eapply envOK_add_var; [|apply Hcur|lia|exact UN].
-    eapply envOK_lim; [|instantiate (1 := lim); lia].
-    eapply envOK_same; [exact HE|]. intros k Hk. symmetry. apply UO.
-    pose proof (kept_lt _ _ _ _ _ _ _ HE Hk). lia. }
-  split; [one st_store; one st_load; apply steps_refl|]. split; [exact HE1|]. split; [exact Ha1|].
-  intros c1.
-  apply (impl_inner qu IHu sc cur base Hfr (add_var ce x (cur, n2)) (S (S p2)) (S n2) sn cu n3 sn' Eu Hatu ((x, BV w) :: rho) a st fk vs1 n n0 o g); auto; try lia.
+  intros base cur lo hi lo' hi' vs vs' b bnds H Hlo Hhi Hs. induction H as [|cb sb b' bnds' (E & k & w & Ek & Hk & Ew & Hn) _ IH]; constructor; auto.
+  split; [exact E|]. exists k, w. split; [exact Ek|]. split; [lia|]. split; [exact Ew|]. rewrite Hs by lia. exact Hn.
+Qed.
+Lemma bound_ok_app : forall base cur lo hi vs b1 bnds1 b2 bnds2, bound_ok base cur lo hi vs b1 bnds1 -> bound_ok base cur lo hi vs b2 bnds2 ->
+  bound_ok base cur lo hi vs (b1 ++ b2) (bnds1 ++ bnds2).
+Proof. intros. apply Forall2_app; auto. Qed.
+
+Definition pat_res (sc : list frame) (pc' : nat) (st : list sv) (fk : list fork) (n o : nat) (g : gx) (base cur lo hi : nat)
+  (vs : list sv) (b : list (vname * var)) (r : venv + err0) (s : state) : Prop :=
+  match r with
+  | inl bnds => exists vs', steps s (N sc pc' st fk vs' n o g) /\ chg (fun i => base + lo <= i < base + hi) vs vs' /\
+                            bound_ok base cur lo hi vs' b bnds
+  | inr e => exists vs', steps s (B (Some (VE (err_of e))) fk vs' n g) /\ chg (fun i => base + lo <= i < base + hi) vs vs'
+  end.
+
+Lemma parr_match_cons : forall p r i w, parr_match nt (ACons p r) i w =
+  match index_arr nt w i with
+  | inl wi => match pmatch nt p wi with
+              | inl b1 => match parr_match nt r (S i) w with inl b2 => inl (b2 ++ b1) | inr e => inr e end
+              | inr e => inr e end
+  | inr e => inr e
+  end.
+Proof. reflexivity. Qed.
+Lemma pobj_match_key : forall k p r w, pobj_match nt (OKey k p r) w =
+  match n_index nt w (VStr k) with
+  | inl wk => match pmatch nt p wk with
+              | inl b1 => match pobj_match nt r w with inl b2 => inl (b2 ++ b1) | inr e => inr e end
+              | inr e => inr e end
+  | inr e => inr e
+  end.
+Proof. reflexivity. Qed.
+Lemma pobj_match_keyvar : forall k x p r w, pobj_match nt (OKeyVar k x p r) w =
+  match n_index nt w (VStr k) with
+  | inl wk => match pmatch nt p wk with
+              | inl b1 => match pobj_match nt r w with inl b2 => inl (b2 ++ b1 ++ [(x, BV wk)]) | inr e => inr e end
+              | inr e => inr e end
+  | inr e => inr e
+  end.
+Proof. reflexivity. Qed.
+
+Lemma pat_run : forall sc cur base, frameOK sc cur base ->
+  (forall p nv c b n', pcomp p cur nv = (c, b, n') -> forall pc, code_at pc c ->
+     forall w st fk vs n o g, base + n' <= length vs ->
+     pat_res sc (pc + length c) st fk n o g base cur nv n' vs b (pmatch nt p w) (N sc pc (SV w :: st) fk vs n o g)) /\
+  (forall l i kv nv c b n', parr_comp l i (cur, kv) cur nv = (c, b, n') -> kv < nv -> forall pc, code_at pc c ->
+     forall w st fk vs n o g, base + n' <= length vs -> nth_error vs (base + kv) = Some (SV w) ->
+     pat_res sc (pc + length c) st fk n o g base cur nv n' vs b (parr_match nt l i w) (N sc pc st fk vs n o g)) /\
+  (forall l kv nv c b n', pobj_comp l (cur, kv) cur nv = (c, b, n') -> kv < nv -> forall pc, code_at pc c ->
+     forall w st fk vs n o g, base + n' <= length vs -> nth_error vs (base + kv) = Some (SV w) ->
+     pat_res sc (pc + length c) st fk n o g base cur nv n' vs b (pobj_match nt l w) (N sc pc st fk vs n o g)).
+Proof.
+  intros sc cur base Hfr. pose proof (frameOK_cur _ _ _ Hfr) as Hcur.
+  apply pattern_mutind.
+  - (* $x *)
+    intros x nv c b n' Hc pc Hat w st fk vs n o g Hlen. simpl in Hc. inversion Hc; subst c b n'. clear Hc. uncons Hat A0.
+    destruct (update_some vs (base + nv) (SV w)) as [vs1 U]; [lia|]. destruct (update_spec _ _ _ _ U) as (UL & UN & UO).
+    cbn [pmatch parr_match pobj_match]. unfold pat_res. exists vs1. split; [simpl; replace (pc + 1) with (S pc) by lia; one st_store; apply steps_refl|].
+    split; [eapply chg_update; [exact U|simpl; lia]|].
+    constructor; [|constructor]. split; [reflexivity|]. exists nv, w. simpl. auto 6 with arith.
+  - (* [ ... ] *)
+    intros l IH nv c b n' Hc pc Hat w st fk vs n o g Hlen. simpl in Hc.
+    destruct (parr_comp l 0 (cur, nv) cur (S nv)) as [[c0 b0] n0] eqn:E. inversion Hc; subst c b n'. clear Hc. uncons Hat A0.
+    pose proof (proj1 (proj2 pcomp_nvars) _ _ _ _ _ _ _ _ E) as Mn.
+    destruct (update_some vs (base + nv) (SV w)) as [vs1 U]; [lia|]. destruct (update_spec _ _ _ _ U) as (UL & UN & UO).
+    pose proof (IH 0 nv (S nv) c0 b0 n0 E (le_n _) (S pc) Hat w st fk vs1 n o g ltac:(lia) UN) as HR.
+    change (pmatch nt (PArr l) w) with (parr_match nt l 0 w). simpl length. replace (pc + S (length c0)) with (S pc + length c0) by lia.
+    assert (C1 : chg (fun i => base + nv <= i < base + n0) vs vs1) by (eapply chg_update; [exact U|simpl; lia]).
+    destruct (parr_match nt l 0 w) as [bnds|e]; unfold pat_res in *.
+    + destruct HR as (vs' & St & Ch & Hb). exists vs'. split; [one st_store; exact St|].
+      split; [eapply chg_trans; [exact C1|eapply chg_mono; [|exact Ch]; simpl; intros; lia]|].
+      eapply bound_ok_mono; [exact Hb|lia|lia|auto].
+    + destruct HR as (vs' & St & Ch). exists vs'. split; [one st_store; exact St|].
+      eapply chg_trans; [exact C1|eapply chg_mono; [|exact Ch]; simpl; intros; lia].
+  - (* { ... } *)
+    intros l IH nv c b n' Hc pc Hat w st fk vs n o g Hlen. simpl in Hc.
+    destruct (pobj_comp l (cur, nv) cur (S nv)) as [[c0 b0] n0] eqn:E. inversion Hc; subst c b n'. clear Hc. uncons Hat A0.
+    pose proof (proj2 (proj2 pcomp_nvars) _ _ _ _ _ _ _ E) as Mn.
+    destruct (update_some vs (base + nv) (SV w)) as [vs1 U]; [lia|]. destruct (update_spec _ _ _ _ U) as (UL & UN & UO).
+    pose proof (IH nv (S nv) c0 b0 n0 E (le_n _) (S pc) Hat w st fk vs1 n o g ltac:(lia) UN) as HR.
+    change (pmatch nt (PObj l) w) with (pobj_match nt l w). simpl length. replace (pc + S (length c0)) with (S pc + length c0) by lia.
+    assert (C1 : chg (fun i => base + nv <= i < base + n0) vs vs1) by (eapply chg_update; [exact U|simpl; lia]).
+    destruct (pobj_match nt l w) as [bnds|e]; unfold pat_res in *.
+    + destruct HR as (vs' & St & Ch & Hb). exists vs'. split; [one st_store; exact St|].
+      split; [eapply chg_trans; [exact C1|eapply chg_mono; [|exact Ch]; simpl; intros; lia]|].
+      eapply bound_ok_mono; [exact Hb|lia|lia|auto].
+    + destruct HR as (vs' & St & Ch). exists vs'. split; [one st_store; exact St|].
+      eapply chg_trans; [exact C1|eapply chg_mono; [|exact Ch]; simpl; intros; lia].
+  - (* no more elements *)
+    intros i kv nv c b n' Hc Hkv pc Hat w st fk vs n o g Hlen Hv. simpl in Hc. inversion Hc; subst c b n'.
+    cbn [pmatch parr_match pobj_match]. unfold pat_res. exists vs. simpl. rewrite Nat.add_0_r. split; [apply steps_refl|]. split; [apply chg_refl|constructor].
+  - (* an element *)
+    intros p IHp r IHr i kv nv c b n' Hc Hkv pc Hat w st fk vs n o g Hlen Hv. simpl in Hc.
+    destruct (pcomp p cur nv) as [[c1 b1] n1] eqn:E1. destruct (parr_comp r (S i) (cur, kv) cur n1) as [[c2 b2] n2] eqn:E2.
+    inversion Hc; subst c b n'. clear Hc.
+    pose proof (proj1 pcomp_nvars _ _ _ _ _ _ E1) as M1. pose proof (proj1 (proj2 pcomp_nvars) _ _ _ _ _ _ _ _ E2) as M2.
+    uncons Hat A0. uncons Hat A1. destruct (code_at_app _ _ _ _ Hat) as [Hat1 Hat2].
+    rewrite parr_match_cons.
+    assert (Epc : pc + length (Iload (cur, kv) :: Iindexarray i :: c1 ++ c2) = S (S pc) + length c1 + length c2) by (simpl; rewrite app_length; lia).
+    rewrite Epc.
+    destruct (index_arr nt w i) as [wi|e] eqn:Ei.
+    2:{ unfold pat_res. exists vs. split; [eapply steps_step; [eapply st_load; [exact A0|apply Hcur|exact Hv]|]; one st_indexarray_err; apply steps_refl|apply chg_refl]. }
+    pose proof (IHp nv c1 b1 n1 E1 (S (S pc)) Hat1 wi st fk vs n o g ltac:(lia)) as H1.
+    destruct (pmatch nt p wi) as [bn1|e]; unfold pat_res in H1.
+    2:{ destruct H1 as (vs1 & St1 & Ch1). unfold pat_res. exists vs1.
+        split; [eapply steps_step; [eapply st_load; [exact A0|apply Hcur|exact Hv]|]; one st_indexarray_ok; exact St1|].
+        eapply chg_mono; [|exact Ch1]. simpl; intros; lia. }
+    destruct H1 as (vs1 & St1 & Ch1 & Hb1).
+    assert (Hv1 : nth_error vs1 (base + kv) = Some (SV w)) by (rewrite <- (proj2 Ch1) by lia; exact Hv).
+    pose proof (IHr (S i) kv n1 c2 b2 n2 E2 ltac:(lia) (S (S pc) + length c1) Hat2 w st fk vs1 n o g ltac:(destruct Ch1; lia) Hv1) as H2.
+    destruct (parr_match nt r (S i) w) as [bn2|e]; unfold pat_res in H2 |- *.
+    + destruct H2 as (vs2 & St2 & Ch2 & Hb2). exists vs2.
+      split; [eapply steps_step; [eapply st_load; [exact A0|apply Hcur|exact Hv]|]; one st_indexarray_ok; eapply steps_trans; [exact St1|exact St2]|].
+      split; [eapply chg_trans; eapply chg_mono; [|exact Ch1| |exact Ch2]; simpl; intros; lia|].
+      apply bound_ok_app.
+      * eapply bound_ok_mono; [exact Hb2|lia|lia|auto].
+      * eapply bound_ok_mono; [exact Hb1|lia|lia|]. intros k Hk. symmetry. apply (proj2 Ch2). lia.
+    + destruct H2 as (vs2 & St2 & Ch2). exists vs2.
+      split; [eapply steps_step; [eapply st_load; [exact A0|apply Hcur|exact Hv]|]; one st_indexarray_ok; eapply steps_trans; [exact St1|exact St2]|].
+      eapply chg_trans; eapply chg_mono; [|exact Ch1| |exact Ch2]; simpl; intros; lia.
+  - (* no more entries *)
+    intros kv nv c b n' Hc Hkv pc Hat w st fk vs n o g Hlen Hv. simpl in Hc. inversion Hc; subst c b n'.
+    cbn [pmatch parr_match pobj_match]. unfold pat_res. exists vs. simpl. rewrite Nat.add_0_r. split; [apply steps_refl|]. split; [apply chg_refl|constructor].
+  - (* k: p *)
+    intros k p IHp r IHr kv nv c b n' Hc Hkv pc Hat w st fk vs n o g Hlen Hv. simpl in Hc.
+    destruct (pcomp p cur nv) as [[c1 b1] n1] eqn:E1. destruct (pobj_comp r (cur, kv) cur n1) as [[c2 b2] n2] eqn:E2.
+    inversion Hc; subst c b n'. clear Hc.
+    pose proof (proj1 pcomp_nvars _ _ _ _ _ _ E1) as M1. pose proof (proj2 (proj2 pcomp_nvars) _ _ _ _ _ _ _ E2) as M2.
+    uncons Hat A0. uncons Hat A1. destruct (code_at_app _ _ _ _ Hat) as [Hat1 Hat2].
+    rewrite pobj_match_key.
+    assert (Epc : pc + length (Iload (cur, kv) :: Iindex (VStr k) :: c1 ++ c2) = S (S pc) + length c1 + length c2) by (simpl; rewrite app_length; lia).
+    rewrite Epc.
+    destruct (n_index nt w (VStr k)) as [wi|e] eqn:Ei.
+    2:{ unfold pat_res. exists vs. split; [eapply steps_step; [eapply st_load; [exact A0|apply Hcur|exact Hv]|]; one st_index_err; apply steps_refl|apply chg_refl]. }
+    pose proof (IHp nv c1 b1 n1 E1 (S (S pc)) Hat1 wi st fk vs n o g ltac:(lia)) as H1.
+    destruct (pmatch nt p wi) as [bn1|e]; unfold pat_res in H1.
+    2:{ destruct H1 as (vs1 & St1 & Ch1). unfold pat_res. exists vs1.
+        split; [eapply steps_step; [eapply st_load; [exact A0|apply Hcur|exact Hv]|]; one st_index_ok; exact St1|].
+        eapply chg_mono; [|exact Ch1]. simpl; intros; lia. }
+    destruct H1 as (vs1 & St1 & Ch1 & Hb1).
+    assert (Hv1 : nth_error vs1 (base + kv) = Some (SV w)) by (rewrite <- (proj2 Ch1) by lia; exact Hv).
+    pose proof (IHr kv n1 c2 b2 n2 E2 ltac:(lia) (S (S pc) + length c1) Hat2 w st fk vs1 n o g ltac:(destruct Ch1; lia) Hv1) as H2.
+    destruct (pobj_match nt r w) as [bn2|e]; unfold pat_res in H2 |- *.
+    + destruct H2 as (vs2 & St2 & Ch2 & Hb2). exists vs2.
+      split; [eapply steps_step; [eapply st_load; [exact A0|apply Hcur|exact Hv]|]; one st_index_ok; eapply steps_trans; [exact St1|exact St2]|].
+      split; [eapply chg_trans; eapply chg_mono; [|exact Ch1| |exact Ch2]; simpl; intros; lia|].
+      apply bound_ok_app.
+      * eapply bound_ok_mono; [exact Hb2|lia|lia|auto].
+      * eapply bound_ok_mono; [exact Hb1|lia|lia|]. intros k0 Hk. symmetry. apply (proj2 Ch2). lia.
+    + destruct H2 as (vs2 & St2 & Ch2). exists vs2.
+      split; [eapply steps_step; [eapply st_load; [exact A0|apply Hcur|exact Hv]|]; one st_index_ok; eapply steps_trans; [exact St1|exact St2]|].
+      eapply chg_trans; eapply chg_mono; [|exact Ch1| |exact Ch2]; simpl; intros; lia.
+  - (* $x: p *)
+    intros k x p IHp r IHr kv nv c b n' Hc Hkv pc Hat w st fk vs n o g Hlen Hv. simpl in Hc.
+    destruct (pcomp p cur (S nv)) as [[c1 b1] n1] eqn:E1. destruct (pobj_comp r (cur, kv) cur n1) as [[c2 b2] n2] eqn:E2.
+    inversion Hc; subst c b n'. clear Hc.
+    pose proof (proj1 pcomp_nvars _ _ _ _ _ _ E1) as M1. pose proof (proj2 (proj2 pcomp_nvars) _ _ _ _ _ _ _ E2) as M2.
+    uncons Hat A0. uncons Hat A1. uncons Hat A2. uncons Hat A3. destruct (code_at_app _ _ _ _ Hat) as [Hat1 Hat2].
+    rewrite pobj_match_keyvar.
+    assert (Epc : pc + length (Iload (cur, kv) :: Iindex (VStr k) :: Idup :: Istore (cur, nv) :: c1 ++ c2) = S (S (S (S pc))) + length c1 + length c2) by (simpl; rewrite app_length; lia).
+    rewrite Epc.
+    destruct (n_index nt w (VStr k)) as [wi|e] eqn:Ei.
+    2:{ unfold pat_res. exists vs. split; [eapply steps_step; [eapply st_load; [exact A0|apply Hcur|exact Hv]|]; one st_index_err; apply steps_refl|apply chg_refl]. }
+    destruct (update_some vs (base + nv) (SV wi)) as [vs0 U]; [lia|]. destruct (update_spec _ _ _ _ U) as (UL & UN & UO).
+    assert (C0 : chg (fun i => base + nv <= i < base + n2) vs vs0) by (eapply chg_update; [exact U|simpl; lia]).
+    assert (Hv0 : nth_error vs0 (base + kv) = Some (SV w)) by (rewrite UO by lia; exact Hv).
+    assert (St0 : steps (N sc pc st fk vs n o g) (N sc (S (S (S (S pc)))) (SV wi :: st) fk vs0 n o g)).
+    { eapply steps_step; [eapply st_load; [exact A0|apply Hcur|exact Hv]|]. one st_index_ok. one st_dup. one st_store. apply steps_refl. }
+    pose proof (IHp (S nv) c1 b1 n1 E1 (S (S (S (S pc)))) Hat1 wi st fk vs0 n o g ltac:(lia)) as H1.
+    destruct (pmatch nt p wi) as [bn1|e]; unfold pat_res in H1.
+    2:{ destruct H1 as (vs1 & St1 & Ch1). unfold pat_res. exists vs1.
+        split; [eapply steps_trans; [exact St0|exact St1]|].
+        eapply chg_trans; [exact C0|]. eapply chg_mono; [|exact Ch1]. simpl; intros; lia. }
+    destruct H1 as (vs1 & St1 & Ch1 & Hb1).
+    assert (Hv1 : nth_error vs1 (base + kv) = Some (SV w)) by (rewrite <- (proj2 Ch1) by lia; exact Hv0).
+    pose proof (IHr kv n1 c2 b2 n2 E2 ltac:(lia) (S (S (S (S pc))) + length c1) Hat2 w st fk vs1 n o g ltac:(destruct Ch1; lia) Hv1) as H2.
+    destruct (pobj_match nt r w) as [bn2|e]; unfold pat_res in H2 |- *.
+    + destruct H2 as (vs2 & St2 & Ch2 & Hb2). exists vs2.
+      split; [eapply steps_trans; [exact St0|]; eapply steps_trans; [exact St1|exact St2]|].
+      split; [eapply chg_trans; [exact C0|]; eapply chg_trans; eapply chg_mono; [|exact Ch1| |exact Ch2]; simpl; intros; lia|].
+      apply bound_ok_app; [|apply bound_ok_app].
+      * eapply bound_ok_mono; [exact Hb2|lia|lia|auto].
+      * eapply bound_ok_mono; [exact Hb1|lia|lia|]. intros k0 Hk. symmetry. apply (proj2 Ch2). lia.
+      * constructor; [|constructor]. split; [reflexivity|]. exists nv, wi. simpl. split; [reflexivity|]. split; [lia|]. split; [reflexivity|].
+        rewrite <- (proj2 Ch2) by lia. rewrite <- (proj2 Ch1) by lia. exact UN.
+    + destruct H2 as (vs2 & St2 & Ch2). exists vs2.
+      split; [eapply steps_trans; [exact St0|]; eapply steps_trans; [exact St1|exact St2]|].
+      eapply chg_trans; [exact C0|]. eapply chg_trans; eapply chg_mono; [|exact Ch1| |exact Ch2]; simpl; intros; lia.
 Qed.
 
-(* the update phase of reduce/foreach for one source output w: store $x; load acc; update; then, for every
+Lemma envOK_add_vars : forall sc cur base, (forall k, index_of sc (cur, k) = Some (base + k)) ->
+  forall bs bnds ce rho vs n0 lim lo hi, bound_ok base cur lo hi vs bs bnds -> base + hi <= lim ->
+  envOK sc ce rho vs n0 lim -> envOK sc (add_vars ce bs) (bnds ++ rho) vs n0 lim.
+Proof.
+  intros sc cur base Hcur bs bnds ce rho vs n0 lim lo hi Hb Hlim HE.
+  induction Hb as [|[x y] [x' sb] b' bnds' (E & k & w & Ek & Hk & Ew & Hn) _ IH]; [exact HE|].
+  simpl in *. subst x' y sb. eapply envOK_add_var; [exact IH|apply Hcur|lia|exact Hn].
+Qed.
+Lemma kept_add_vars : forall sc cur base, (forall k, index_of sc (cur, k) = Some (base + k)) ->
+  forall bs bnds ce vs lo hi i, bound_ok base cur lo hi vs bs bnds -> kept sc (add_vars ce bs) i ->
+  (exists k, lo <= k < hi /\ i = base + k) \/ kept sc ce i.
+Proof.
+  intros sc cur base Hcur bs bnds ce vs lo hi i Hb. induction Hb as [|[x y] [x' sb] b' bnds' (E & k & w & Ek & Hk & Ew & Hn) _ IH]; intros Hi; [right; exact Hi|].
+  simpl in *. subst y. destruct (kept_add_var _ _ _ _ _ _ (Hcur k) Hi) as [->|Hi']; [left; exists k; auto|auto].
+Qed.
+
+(* the update of reduce/foreach: the pattern (compilePattern; a plain $x is one store), load the accumulator, run the
+   update as a generator -- or the error of the pattern *)
+Lemma upd_inner : forall qu, Impl qu -> forall sc cur base, frameOK sc cur base ->
+  forall ce p n2 cp bs n2' p2 sn cu n3 sn',
+  pcomp p cur n2 = (cp, bs, n2') -> code_at p2 cp ->
+  comp qu (add_vars ce bs) cur (S (p2 + length cp)) n2' sn = Some (cu, n3, sn') -> code_at (S (p2 + length cp)) cu ->
+  forall accs, at_ (p2 + length cp) (Iload (cur, accs)) ->
+  forall rho w a st fk vs n n0 o g lim, accs < n2 -> lim <= base + n2 ->
+  envOK sc ce rho vs n0 lim -> n0 <= n -> base + n3 <= o -> o <= length vs -> nth_error vs (base + accs) = Some (SV a) ->
+  match pmatch nt p w with
+  | inl bnds =>
+      exists vs1, chg (fun i => base + n2 <= i < base + n2') vs vs1 /\
+      steps (N sc p2 (SV w :: st) fk vs n o g) (N sc (S (p2 + length cp)) (SV a :: st) fk vs1 n o g) /\
+      envOK sc (add_vars ce bs) (bnds ++ rho) vs1 n0 (base + n2') /\ nth_error vs1 (base + accs) = Some (SV a) /\
+      bound_ok base cur n2 n2' vs1 bs bnds /\
+      let c1 := ctx_of sc (S (p2 + length cp) + length cu) st fk (base + n2') (base + n3) o o
+                  (fun i => base + n2' <= i < base + n3 \/ kept sc (add_vars ce bs) i) (fun _ => False) (add_vars ce bs) n0 (ctr g) in
+      G c1 (fst (den qu (bnds ++ rho) a)) (Tend c1 (snd (den qu (bnds ++ rho) a)) (fun _ _ _ => True))
+                   (N sc (S (p2 + length cp)) (SV a :: st) fk vs1 n o g)
+  | inr e =>
+      exists vs1, chg (fun i => base + n2 <= i < base + n2') vs vs1 /\
+      steps (N sc p2 (SV w :: st) fk vs n o g) (B (Some (VE (err_of e))) fk vs1 n g)
+  end.
+Proof.
+  intros qu IHu sc cur base Hfr ce p n2 cp bs n2' p2 sn cu n3 sn' Ep Hatp Eu Hatu accs A1 rho w a st fk vs n n0 o g lim Hacc Hlim HE Hn Ho Hl Ha.
+  pose proof (frameOK_cur _ _ _ Hfr) as Hcur.
+  destruct (comp_mono _ _ _ _ _ _ _ _ _ Eu) as [M _]. pose proof (proj1 pcomp_nvars _ _ _ _ _ _ Ep) as Mp.
+  pose proof (proj1 (pat_run sc cur base Hfr) p n2 cp bs n2' Ep p2 Hatp w st fk vs n o g ltac:(lia)) as HR.
+  destruct (pmatch nt p w) as [bnds|e]; unfold pat_res in HR.
+  - destruct HR as (vs1 & St & Ch & Hb). exists vs1. split; [exact Ch|]. pose proof (proj1 Ch) as CL.
+    assert (Ha1 : nth_error vs1 (base + accs) = Some (SV a)) by (rewrite <- (proj2 Ch) by lia; exact Ha).
+    assert (HE1 : envOK sc (add_vars ce bs) (bnds ++ rho) vs1 n0 (base + n2')).
+    { eapply envOK_add_vars; [exact Hcur|exact Hb|lia|].
+      eapply envOK_lim; [|instantiate (1 := lim); lia].
+      eapply envOK_same; [exact HE|]. intros k Hk. apply (proj2 Ch).
+      pose proof (kept_lt _ _ _ _ _ _ _ HE Hk). lia. }
+    split; [eapply steps_trans; [exact St|]; one st_load; apply steps_refl|]. split; [exact HE1|]. split; [exact Ha1|]. split; [exact Hb|].
+    intros c1.
+    apply (impl_inner qu IHu sc cur base Hfr (add_vars ce bs) (S (p2 + length cp)) n2' sn cu n3 sn' Eu Hatu (bnds ++ rho) a st fk vs1 n n0 o g); auto; try lia.
+  - destruct HR as (vs1 & St & Ch). exists vs1. split; [exact Ch|exact St].
+Qed.
+
+(* the update phase of reduce/foreach for one source output w: the pattern; load acc; update; then, for every
    output u of the update, a body that maintains the accumulator (ghost) in slot nv of the current frame.
-   K0C is what a continuation keeps after a forkless output at this level; JfC the tail the caller needs *)
+   K0C is what a continuation keeps after a forkless output at this level; JfC the tail the caller needs.  When the
+   pattern does not match w the phase ends with that error (no update output) *)
 Lemma upd_level : forall qu, Impl qu -> forall sc cur base, frameOK sc cur base ->
-  forall ce x n2 p2 sn cu n3 sn',
-  comp qu (add_var ce x (cur, n2)) cur (S (S p2)) (S n2) sn = Some (cu, n3, sn') -> code_at (S (S p2)) cu ->
-  forall nv, at_ p2 (Istore (cur, n2)) -> at_ (S p2) (Iload (cur, nv)) ->
+  forall ce p n2 cp bs n2' p2 sn cu n3 sn',
+  pcomp p cur n2 = (cp, bs, n2') -> code_at p2 cp ->
+  comp qu (add_vars ce bs) cur (S (p2 + length cp)) n2' sn = Some (cu, n3, sn') -> code_at (S (p2 + length cp)) cu ->
+  forall nv, at_ (p2 + length cp) (Iload (cur, nv)) ->
   forall rho w st fk (K K0C : nat -> Prop) n0 hi o ko (P : list sv -> nat -> gx -> Prop) pcx (fbC : jv -> jv -> list jv * option exn * jv)
          (ownbC0 : nat -> Prop) oe y (JfC : jv -> list sv -> nat -> gx -> Prop),
-  let ce3 := add_var ce x (cur, n2) in
-  let rho3 := (x, BV w) :: rho in
+  let ce3 := add_vars ce bs in
   let lo := base + nv in
   let P3 := Jstd sc ce rho n0 lo o P in
-  let cC := {| g_sc := sc; g_pc := pcx; g_st := st; g_base := fk; g_own := fun i => i = lo \/ base + S n2 <= i < hi \/ oe <= i;
+  let cC := {| g_sc := sc; g_pc := pcx; g_st := st; g_base := fk; g_own := fun i => i = lo \/ base + n2' <= i < hi \/ oe <= i;
                g_keep := K; g_keep0 := K0C; g_ce := ce3; g_n0 := n0; g_off := oe; g_koff := ko; g_ctr := ctr y |} in
   let cOut := {| g_sc := sc; g_pc := pcx; g_st := st; g_base := fk; g_own := fun i => (i = lo \/ base + n2 <= i < hi) \/ oe <= i;
                  g_keep := K; g_keep0 := K0C; g_ce := ce; g_n0 := n0; g_off := oe; g_koff := ko; g_ctr := ctr y |} in
-  let JC := fun g a m z => Jstd sc ce3 rho3 n0 (base + S n2) oe P3 a m z /\ nth_error a lo = Some (SV g) in
+  let JC := fun rho3 g a m z => Jstd sc ce3 rho3 n0 (base + n2') oe P3 a m z /\ nth_error a lo = Some (SV g) in
   nv < n2 -> base + n3 <= hi -> hi <= ko -> ko <= o -> o <= oe ->
   (forall i, lo <= i < hi -> K i) -> (forall i, kept sc ce i -> K i) -> (forall i, kept sc ce i -> i < lo) ->
   (forall (O : nat -> Prop) x y k h k' h', (forall i, O i -> lo <= i < hi \/ o <= i) -> P x k h -> chg O x y -> cle k h k' h' -> P y k' h') ->
   (forall i, ownbC0 i -> i = lo \/ base + n3 <= i < hi) ->
-  (forall g a m z, JC g a m z -> JfC g a m z) ->
-  (forall g a b m z m' z', JfC g a m z -> chg (fun i => base + S n2 <= i < base + n3 \/ oe <= i) a b -> cle m z m' z' -> JfC g b m' z') ->
-  (forall u g fk3 vs n o' z os xx g', JC g vs n z -> oe <= o' <= length vs -> ctr y <= ctr z ->
+  (forall rho3 g a m z, JC rho3 g a m z -> JfC g a m z) ->
+  (forall g a m z, Jstd sc ce rho n0 lo o P a m z -> nth_error a lo = Some (SV g) -> JfC g a m z) ->
+  (forall g a b m z m' z', JfC g a m z -> chg (fun i => base + n2' <= i < base + n3 \/ oe <= i) a b -> cle m z m' z' -> JfC g b m' z') ->
+  (forall bnds, pmatch nt p w = inl bnds -> (forall i, kept sc ce3 i -> base + n2 <= i < base + n2' \/ kept sc ce i) ->
+     forall u g fk3 vs n o' z os xx g', JC (bnds ++ rho) g vs n z -> oe <= o' <= length vs -> ctr y <= ctr z ->
      Forall (fun f => ctr y <= f_ctr f) fk3 -> fbC g u = (os, xx, g') ->
-     G (cbody cC ownbC0 ce3 fk3 o' (ctr z)) os (Tend (cbody cC ownbC0 ce3 fk3 o' (ctr z)) xx (wk fk3 (JC g') (JfC g')))
-       (N sc (S (S p2) + length cu) (SV u :: st) (fk3 ++ fk) vs n o' z)) ->
+     G (cbody cC ownbC0 ce3 fk3 o' (ctr z)) os (Tend (cbody cC ownbC0 ce3 fk3 o' (ctr z)) xx (wk fk3 (JC (bnds ++ rho) g') (JfC g')))
+       (N sc (S (p2 + length cp) + length cu) (SV u :: st) (fk3 ++ fk) vs n o' z)) ->
   forall a vs n, Jstd sc ce rho n0 lo o P vs n y -> nth_error vs lo = Some (SV a) -> oe <= length vs ->
-  forall os xx g', foldgen jv fbC (fst (den qu rho3 a)) a = (os, xx, g') ->
-  G cOut os (Tend cOut (match xx with Some e => Some e | None => snd (den qu rho3 a) end) (JfC g'))
+  forall updr, updr = match pmatch nt p w with inl bnds => den qu (bnds ++ rho) a | inr e => ([], Some (XErr e)) end ->
+  forall os xx g', foldgen jv fbC (fst updr) a = (os, xx, g') ->
+  G cOut os (Tend cOut (match xx with Some e => Some e | None => snd updr end) (JfC g'))
     (N sc p2 (SV w :: st) fk vs n oe y).
 Proof.
-  intros qu IHu sc cur base Hfr ce x n2 p2 sn cu n3 sn' Eu Hatu nv A0 A1 rho w st fk K K0C n0 hi o ko P pcx fbC ownbC0 oe y JfC
-         ce3 rho3 lo P3 cC cOut JC Hnv Hhi Hko Hoo Hoe HK1 HK2 Hkl S1' HobC HJJ HJf1 HbodyC a vs n Hj Ha Hlen os xx g' Ef. pose proof (frameOK_cur _ _ _ Hfr) as Hcur.
-  destruct (comp_mono _ _ _ _ _ _ _ _ _ Eu) as [M _]. pose proof Hj as (E & Hn & Hl & Hp).
-  destruct (upd_inner qu IHu sc cur base Hfr ce x n2 p2 sn cu n3 sn' Eu Hatu nv A0 A1 rho w a st fk vs n n0 oe y lo Hnv ltac:(unfold lo; lia)
-              E Hn ltac:(lia) Hlen Ha) as (vs1 & U & St1 & HE1 & Ha1 & HU). cbv zeta in HU.
-  destruct (update_spec _ _ _ _ U) as (UL & UN & UO).
-  assert (HP3 : P3 vs1 n y) by (unfold P3; eapply (Jstd_update _ _ _ _ _ _ lo hi); [exact S1'|exact Hj|exact U|unfold lo; lia|unfold lo; lia]).
-  assert (Hk3 : forall i, kept sc ce3 i -> i = base + n2 \/ kept sc ce i).
-  { intros i Hi. exact (kept_add_var _ _ _ _ _ _ (Hcur n2) Hi). }
+  intros qu IHu sc cur base Hfr ce p n2 cp bs n2' p2 sn cu n3 sn' Ep Hatp Eu Hatu nv A1 rho w st fk K K0C n0 hi o ko P pcx fbC ownbC0 oe y JfC
+         ce3 lo P3 cC cOut JC Hnv Hhi Hko Hoo Hoe HK1 HK2 Hkl S1' HobC HJJ HJ0f HJf1 HbodyC a vs n Hj Ha Hlen updr Eur os xx g' Ef. pose proof (frameOK_cur _ _ _ Hfr) as Hcur.
+  destruct (comp_mono _ _ _ _ _ _ _ _ _ Eu) as [M _]. pose proof (proj1 pcomp_nvars _ _ _ _ _ _ Ep) as Mp. pose proof Hj as (E & Hn & Hl & Hp).
+  pose proof (upd_inner qu IHu sc cur base Hfr ce p n2 cp bs n2' p2 sn cu n3 sn' Ep Hatp Eu Hatu nv A1 rho w a st fk vs n n0 oe y lo Hnv ltac:(unfold lo; lia)
+              E Hn ltac:(lia) Hlen Ha) as HI.
+  destruct (pmatch nt p w) as [bnds|e] eqn:Hpm; subst updr.
+  2:{ destruct HI as (vs1 & Ch & St1). cbn [fst snd] in *. simpl in Ef. inversion Ef; subst os xx g'. clear Ef.
+      eapply G_end; [exact St1|eapply chg_mono; [|exact Ch]; simpl; intros; lia|cl|reflexivity|].
+      apply HJ0f; [|rewrite <- (proj2 Ch) by (unfold lo; lia); exact Ha].
+      eapply (Jstd_chg' _ _ _ _ _ _ lo hi); [exact S1'| |exact Hj|exact Ch|apply cle_refl]. simpl; unfold lo; intros; lia. }
+  destruct HI as (vs1 & Ch & St1 & HE1 & Ha1 & Hb & HU). cbv zeta in HU. pose proof (proj1 Ch) as CL.
+  set (rho3 := bnds ++ rho) in *.
+  assert (HP3 : P3 vs1 n y).
+  { unfold P3. eapply (Jstd_chg' _ _ _ _ _ _ lo hi); [exact S1'| |exact Hj|exact Ch|apply cle_refl]. simpl; unfold lo; intros; lia. }
+  assert (Hk3 : forall i, kept sc ce3 i -> base + n2 <= i < base + n2' \/ kept sc ce i).
+  { intros i Hi. destruct (kept_add_vars sc cur base Hcur bs bnds ce vs1 n2 n2' i Hb Hi) as [(k & Hk & ->)|Hi']; [left; lia|right; exact Hi']. }
   assert (HG : G cC os (Tend cC (match xx with Some e => Some e | None => snd (den qu rho3 a) end) (JfC g'))
-                 (N sc (S (S p2)) (SV a :: st) fk vs1 n oe y)).
-  { refine (fold_gen (ctx_of sc (S (S p2) + length cu) st fk (base + S n2) (base + n3) oe oe
-                        (fun i => base + S n2 <= i < base + n3 \/ kept sc ce3 i) (fun _ => False) ce3 n0 (ctr y))
-              cC rho3 (base + S n2) oe P3 jv (fun g a' => nth_error a' lo = Some (SV g)) JfC fbC ownbC0 ce3
-              eq_refl eq_refl eq_refl eq_refl eq_refl eq_refl eq_refl _ _ _ _ _ _ _ eq_refl _ _ _ HJJ HbodyC _ a _ _ os xx g' HU _ (le_n _) Ef).
+                 (N sc (S (p2 + length cp)) (SV a :: st) fk vs1 n oe y)).
+  { refine (fold_gen (ctx_of sc (S (p2 + length cp) + length cu) st fk (base + n2') (base + n3) oe oe
+                        (fun i => base + n2' <= i < base + n3 \/ kept sc ce3 i) (fun _ => False) ce3 n0 (ctr y))
+              cC rho3 (base + n2') oe P3 jv (fun g a' => nth_error a' lo = Some (SV g)) JfC fbC ownbC0 ce3
+              eq_refl eq_refl eq_refl eq_refl eq_refl eq_refl eq_refl _ _ _ _ _ _ _ eq_refl _ _ _ (HJJ rho3) (HbodyC bnds eq_refl Hk3) _ a _ _ os xx g' HU _ (le_n _) Ef).
     - simpl. lia.
     - simpl; intros; lia.
     - simpl. intros i Hi. apply HobC in Hi. unfold lo in *. lia.
     - simpl; intros; lia.
     - simpl. intros i [Hi|Hi].
       + split; [apply HK1; unfold lo; lia|]. split; [intro Ho; apply HobC in Ho; unfold lo in *; lia|lia].
-      + destruct (Hk3 i Hi) as [->|Hi'].
+      + destruct (Hk3 i Hi) as [Hr|Hi'].
         * split; [apply HK1; unfold lo; lia|]. split; [intro Ho; apply HobC in Ho; unfold lo in *; lia|lia].
         * pose proof (Hkl i Hi'). split; [apply HK2; auto|]. split; [intro Ho; apply HobC in Ho; unfold lo in *; lia|unfold lo in *; lia].
     - simpl. intros i [].
-    - simpl. intros i Hi. destruct (Hk3 i Hi) as [->|Hi']; [unfold lo; lia|apply Hkl in Hi'; unfold lo in *; lia].
-    - intros p q m z m' z' Hq C Hm. unfold P3 in *.
+    - simpl. intros i Hi. destruct (Hk3 i Hi) as [Hr|Hi']; [unfold lo; lia|apply Hkl in Hi'; unfold lo in *; lia].
+    - intros p0 q m z m' z' Hq C Hm. unfold P3 in *.
       eapply (Jstd_chg' _ _ _ _ _ _ lo hi); [exact S1'| |exact Hq|exact C|exact Hm]. simpl; unfold lo; intros; lia.
-    - intros g p q Hg C. rewrite <- Hg. symmetry. apply C. simpl. unfold lo. lia.
+    - intros g p0 q Hg C. rewrite <- Hg. symmetry. apply C. simpl. unfold lo. lia.
     - exact HJf1.
     - simpl. split; [|exact Ha1]. split; [exact HE1|]. split; [exact Hn|]. split; [lia|exact HP3]. }
-  eapply G_pre; [exact St1|eapply chg_update; [exact U|simpl; lia]|cl|].
+  eapply G_pre; [exact St1|eapply chg_mono; [|exact Ch]; simpl; intros; lia|cl|].
   refine (G_sub nt code cC cOut _ _ eq_refl eq_refl eq_refl eq_refl _ _ _ (le_n _) (le_n _) (le_n _) _ _ _ HG).
   - simpl; intros; lia.
-  - intros o3 p q Kp. exact Kp.
-  - intros p q Kp. exact Kp.
+  - intros o3 p0 q Kp. exact Kp.
+  - intros p0 q Kp. exact Kp.
   - intros s0 HT. tend_inv HT as (e & vs4 & n4 & g4 & St4 & Ch4 & Le4 & HE4 & HJ4). apply Tend_of.
     exists e, vs4, n4, g4. split; [exact St4|]. split; [eapply chg_mono; [|exact Ch4]; simpl; intros; lia|].
-    split; [exact Le4|]. split; [eapply encR_lbls; [|exact HE4]; reflexivity|exact HJ4].
+    split; [exact Le4|]. split; [eapply encR_lbls; [|exact HE4]; simpl; unfold ce3; rewrite ?add_vars_lbls; reflexivity|exact HJ4].
 Qed.
 
-Lemma impl_reduce : forall qs x qi qu, Impl qs -> Impl qi -> Impl qu -> Impl (QReduce qs x qi qu).
+Lemma impl_reduce : forall qs pt qi qu, Impl qs -> Impl qi -> Impl qu -> Impl (QReduce qs pt qi qu).
 Proof.
-  intros qs x qi qu IHs IHi IHu. impl_intro. simpl in Hc.
-  destruct (comp qi ce cur (S pc) (S nv) sn) as [[[ci n1] s1]|] eqn:Ec; [|discriminate].
-  destruct (comp qs ce cur (pc + 1 + length ci + 2) n1 s1) as [[[cs n2] s2]|] eqn:Ec0; [|discriminate].
-  destruct (comp qu (add_var ce x (cur, n2)) cur (pc + 1 + length ci + 2 + length cs + 2) (S n2) s2) as [[[cu n3] s3]|] eqn:Ec1; [|discriminate].
-  inversion Hc; subst cq nv' sn'. clear Hc.
+  intros qs pt qi qu IHs IHi IHu. impl_intro.
+  destruct (comp_reduce_inv _ _ _ _ _ _ _ _ _ _ _ _ _ _ Hc) as (Hok & ci & n1 & s1 & cs & n2 & s2 & cp & bs & n2' & cu & Ec & Ec0 & Ep & En & Ec1 & Ecq). clear Hc.
+  rename nv' into n3. rename sn' into s3.
   destruct (comp_mono _ _ _ _ _ _ _ _ _ Ec) as [M1 _]. destruct (comp_mono _ _ _ _ _ _ _ _ _ Ec0) as [M2 _].
-  destruct (comp_mono _ _ _ _ _ _ _ _ _ Ec1) as [M3 _].
+  destruct (comp_mono _ _ _ _ _ _ _ _ _ Ec1) as [M3 _]. pose proof (proj1 pcomp_nvars _ _ _ _ _ _ Ep) as Mp.
   std_facts. pose proof (conj S1 S2) as HS. destruct (stable_sub _ _ _ _ _ _ _ _ _ _ _ _ _ _ HS) as [S1' S2'].
   assert (HJ0 : Jstd sc ce rho n0 (base + nv) o P vs n g) by (split; auto).
   set (q1 := S pc + length ci) in *.
   replace (pc + 1 + length ci) with q1 in * by (unfold q1; lia).
   replace (q1 + 2) with (S (S q1)) in * by lia.
   set (q2 := S (S q1) + length cs) in *.
-  replace (q2 + 2) with (S (S q2)) in * by lia.
-  set (q3 := S (S q2) + length cu) in *.
+  replace (q2 + length cp + 1) with (S (q2 + length cp)) in * by lia.
+  set (q3 := S (q2 + length cp) + length cu) in *.
   replace (q3 + 2) with (S (S q3)) in * by lia.
+  subst cq.
   uncons Hat A0. destruct (code_at_app _ _ _ _ Hat) as [Hati Hat2]. fold q1 in Hat2.
   uncons Hat2 A1. uncons Hat2 A2. destruct (code_at_app _ _ _ _ Hat2) as [Hats Hat3]. fold q2 in Hat3.
-  uncons Hat3 A3. uncons Hat3 A4. destruct (code_at_app _ _ _ _ Hat3) as [Hatu Hat4]. fold q3 in Hat4.
+  destruct (code_at_app _ _ _ _ Hat3) as [Hatp Hat3']. uncons Hat3' A4. destruct (code_at_app _ _ _ _ Hat3') as [Hatu Hat4]. fold q3 in Hat4.
   uncons Hat4 A5. uncons Hat4 A6. uncons Hat4 A7. uncons Hat4 A8.
   subst c.
   match goal with |- context [ctx_of sc (pc + length ?l)] =>
@@ -1534,7 +1768,7 @@ Proof.
   set (lo := base + nv) in *. set (hi := base + n3) in *.
   set (c := ctx_of sc pend st fk lo hi o ko K K0 ce n0 (ctr g)).
   cbn [Den.den1].
-  set (updf := fun w acc => den qu ((x, BV w) :: rho) acc).
+  set (updf := fun w acc => match pmatch nt pt w with inl bs0 => den qu (bs0 ++ rho) acc | inr e => ([], Some (XErr e)) end).
   match goal with |- G _ (fst (bind _ ?f)) _ _ => set (f0 := f) end.
   pose proof (impl_inner qi IHi sc cur base Hfr ce (S pc) (S nv) sn ci n1 s1 Ec Hati rho v (SV v :: st) fk vs n n0 o g
                 ltac:(eapply envOK_lim; eauto; lia) Hn ltac:(unfold hi in *; lia) Hlen) as HA. cbv zeta in HA. fold q1 in HA.
@@ -1590,26 +1824,27 @@ Proof.
       intros w a fk2 vs2 m2 o2 z2 os2 x2 g2 [Hj2 Hg2] Ho2 Ht2 Hfk2 Efb. unfold fbB in Efb. inversion Efb; subst os2 x2 g2. clear Efb.
       rewrite wk_same.
       pose proof (foldgen_last (fst (updf w a)) a) as EfC.
-      pose proof (upd_level qu IHu sc cur base Hfr ce x n2 q2 s2 cu n3 s3 Ec1 Hatu nv A3 A4 rho w st (fk2 ++ fx :: F0) K
+      pose proof (upd_level qu IHu sc cur base Hfr ce pt n2 cp bs n2' q2 s2 cu n3 s3 Ep Hatp Ec1 Hatu nv A4 rho w st (fk2 ++ fx :: F0) K
                 (match fk2 with [] => K | _ :: _ => K end) n0 hi o ko P 0
                 (fun (_ : jv) u => ([], None, u)) (fun i => i = lo) o2 z2
                 (fun a0 a' m y => Jstd sc ce rho n0 lo o P a' m y /\ JgB a0 a')) as HU. cbv zeta in HU. fold lo in HU.
-      refine (HU ltac:(lia) (le_n _) Hko Hoo ltac:(simpl in Ho2; lia) HK1 HK2 Hkl S1' _ _ _ _ a vs2 m2 Hj2 Hg2 ltac:(simpl in Ho2; lia) [] None _ EfC).
+      refine (HU ltac:(lia) (le_n _) Hko Hoo ltac:(simpl in Ho2; lia) HK1 HK2 Hkl S1' _ _ _ _ _ a vs2 m2 Hj2 Hg2 ltac:(simpl in Ho2; lia) _ eq_refl [] None _ EfC).
       + intros i ->. auto.
-      + intros a0 p m y [(_ & _ & _ & Hp3) Hg]. split; auto.
-      + intros a0 p q m y m' y' [Hq Hg] C Hm. split.
+      + intros rho3 a0 p0 m y [(_ & _ & _ & Hp3) Hg]. split; auto.
+      + intros a0 p0 m y Hq Hg. split; auto.
+      + intros a0 p0 q m y m' y' [Hq Hg] C Hm. split.
         * eapply (Jstd_chg' _ _ _ _ _ _ lo hi); [exact S1'| |exact Hq|exact C|exact Hm]. simpl; unfold lo, hi in *; simpl in Ho2; intros; lia.
         * unfold JgB in *. rewrite <- Hg. symmetry. apply C. simpl. unfold lo. simpl in Ho2. lia.
-      + intros u g3 fk3 vs3 m3 o3 z3 os3 x3 g3' [Hj3 Hg3] Ho3 Ht3 Hfk3 Efc. inversion Efc; subst os3 x3 g3'. clear Efc.
+      + intros bnds Hpm Hk3 u g3 fk3 vs3 m3 o3 z3 os3 x3 g3' [Hj3 Hg3] Ho3 Ht3 Hfk3 Efc. inversion Efc; subst os3 x3 g3'. clear Efc.
         pose proof Hj3 as (E3 & Hn3 & Hl3 & Hp3).
         destruct (update_some vs3 lo (SV u)) as [vs4 U4]; [unfold lo, hi in *; simpl in Ho2; lia|].
         destruct (update_spec _ _ _ _ U4) as (UL4 & UN4 & UO4).
         eapply G_end; [one st_store; one st_backtrack; apply steps_refl
                       |eapply chg_update; [exact U4|simpl; auto]|cl|reflexivity|].
-        apply wk_intro; [intros p m y [(_ & _ & _ & Hp3') Hg']; split; auto|].
+        apply wk_intro; [intros p0 m y [(_ & _ & _ & Hp3') Hg']; split; auto|].
         split; [|exact UN4].
         eapply Jstd_update_gen; [exact Hj3|exact U4| |].
-        * intros Hk. apply (kept_add_var _ _ _ _ _ _ (Hcur n2)) in Hk. destruct Hk as [Hk|Hk]; [unfold lo in *; lia|apply Hkl in Hk; lia].
+        * intros Hk. apply Hk3 in Hk. destruct Hk as [Hk|Hk]; [unfold lo in *; lia|apply Hkl in Hk; lia].
         * eapply (Jstd_update _ _ _ _ _ _ lo hi); [exact S1'|exact Hp3|exact U4|unfold lo, hi; lia|lia].
     - split; [exact HJ1|exact UN]. }
   (* the reduction is over: back to the fork of reduce *)
@@ -1672,38 +1907,28 @@ Proof.
 Qed.
 
 
-Lemma impl_foreach : forall qs x qi qu ext, Impl qs -> Impl qi -> Impl qu -> Popt Impl ext -> Impl (QForeach qs x qi qu ext).
+Lemma impl_foreach : forall qs pt qi qu ext, Impl qs -> Impl qi -> Impl qu -> Popt Impl ext -> Impl (QForeach qs pt qi qu ext).
 Proof.
-  intros qs x qi qu ext IHs IHi IHu IHx. impl_intro. simpl in Hc.
-  destruct (comp qi ce cur (S pc) (S nv) sn) as [[[ci n1] s1]|] eqn:Ec; [|discriminate].
-  destruct (comp qs ce cur (pc + 1 + length ci + 1) n1 s1) as [[[cs n2] s2]|] eqn:Ec0; [|discriminate].
-  destruct (comp qu (add_var ce x (cur, n2)) cur (pc + 1 + length ci + 1 + length cs + 2) (S n2) s2) as [[[cu n3] s3]|] eqn:Ec1; [|discriminate].
+  intros qs pt qi qu ext IHs IHi IHu IHx. impl_intro.
+  destruct (comp_foreach_inv _ _ _ _ _ _ _ _ _ _ _ _ _ _ _ Hc) as (Hok & ci & n1 & s1 & cs & n2 & s2 & cp & bs & n2' & cu & n3 & s3 & cx & Ec & Ec0 & Ep & En & Ec1 & Hx & ->). clear Hc.
+  cbn [tl_fb] in Hx.
   destruct (comp_mono _ _ _ _ _ _ _ _ _ Ec) as [M1 _]. destruct (comp_mono _ _ _ _ _ _ _ _ _ Ec0) as [M2 _].
-  destruct (comp_mono _ _ _ _ _ _ _ _ _ Ec1) as [M3 _].
+  destruct (comp_mono _ _ _ _ _ _ _ _ _ Ec1) as [M3 _]. pose proof (proj1 pcomp_nvars _ _ _ _ _ _ Ep) as Mp.
+  assert (M4 : n3 <= nv').
+  { destruct ext as [e|]; [exact (proj1 (comp_mono _ _ _ _ _ _ _ _ _ Hx))|destruct Hx as (_ & -> & _); lia]. }
   set (q1 := S pc + length ci) in *.
   replace (pc + 1 + length ci) with q1 in * by (unfold q1; lia).
   replace (q1 + 1) with (S q1) in * by lia.
   set (q2 := S q1 + length cs) in *.
-  replace (q2 + 2) with (S (S q2)) in * by lia.
-  set (q3 := S (S q2) + length cu) in *.
+  replace (q2 + length cp + 1) with (S (q2 + length cp)) in * by lia.
+  set (q3 := S (q2 + length cp) + length cu) in *.
   replace (q3 + 2) with (S (S q3)) in * by lia.
-  set (ce3 := add_var ce x (cur, n2)) in *.
-  assert (Hsh : exists cx, cq = Idup :: ci ++ Istore (cur, nv) :: cs ++ Istore (cur, n2) :: Iload (cur, nv) :: cu ++ Idup :: Istore (cur, nv) :: cx /\
-              n3 <= nv' /\
-              match ext with
-              | Some e => comp e ce3 cur (S (S q3)) n3 s3 = Some (cx, nv', sn')
-              | None => cx = [] /\ nv' = n3
-              end).
-  { destruct ext as [e|].
-    - destruct (comp e ce3 cur (S (S q3)) n3 s3) as [[[cx n4] s4]|] eqn:Ex; [|discriminate]. inversion Hc; subst.
-      exists cx. split; [auto|]. split; [exact (proj1 (comp_mono _ _ _ _ _ _ _ _ _ Ex))|auto].
-    - inversion Hc; subst. exists []. auto. }
-  destruct Hsh as (cx & -> & M4 & Hx). clear Hc.
+  set (ce3 := add_vars ce bs) in *.
   std_facts. pose proof (conj S1 S2) as HS. destruct (stable_sub _ _ _ _ _ _ _ _ _ _ _ _ _ _ HS) as [S1' S2'].
   assert (HJ0 : Jstd sc ce rho n0 (base + nv) o P vs n g) by (split; auto).
   uncons Hat A0. destruct (code_at_app _ _ _ _ Hat) as [Hati Hat2]. fold q1 in Hat2.
   uncons Hat2 A1. destruct (code_at_app _ _ _ _ Hat2) as [Hats Hat3]. fold q2 in Hat3.
-  uncons Hat3 A3. uncons Hat3 A4. destruct (code_at_app _ _ _ _ Hat3) as [Hatu Hat4]. fold q3 in Hat4.
+  destruct (code_at_app _ _ _ _ Hat3) as [Hatp Hat3']. uncons Hat3' A4. destruct (code_at_app _ _ _ _ Hat3') as [Hatu Hat4]. fold q3 in Hat4.
   uncons Hat4 A5. uncons Hat4 A6. rename Hat4 into Hatx.
   subst c.
   match goal with |- context [ctx_of sc (pc + length ?l)] =>
@@ -1713,8 +1938,10 @@ Proof.
   set (lo := base + nv) in *. set (hi := base + nv') in *.
   set (c := ctx_of sc pend st fk lo hi o ko K K0 ce n0 (ctr g)).
   cbn [Den.den1].
-  set (updf := fun w acc => den qu ((x, BV w) :: rho) acc).
-  set (extf := fun w u => match ext with Some e => den e ((x, BV w) :: rho) u | None => ([u], None) end).
+  set (updf := fun w acc => match pmatch nt pt w with inl bs0 => den qu (bs0 ++ rho) acc | inr e => ([], Some (XErr e)) end).
+  set (extf := fun w u => match ext with
+                          | Some e => match pmatch nt pt w with inl bs0 => den e (bs0 ++ rho) u | inr e0 => ([], Some (XErr e0)) end
+                          | None => ([u], None) end).
   match goal with |- G _ (fst (bind _ ?f)) _ _ => set (f0 := f) end.
   pose proof (impl_inner qi IHi sc cur base Hfr ce (S pc) (S nv) sn ci n1 s1 Ec Hati rho v (SV v :: st) fk vs n n0 o g
                 ltac:(eapply envOK_lim; eauto; lia) Hn ltac:(unfold hi in *; lia) Hlen) as HA. cbv zeta in HA. fold q1 in HA.
@@ -1804,30 +2031,31 @@ Proof.
       assert (TBchg : forall (O : nat -> Prop), (forall i, O i -> lo < i /\ (lo <= i < hi \/ o <= i)) ->
                 forall a0 p q m y m' y', TB a0 p m y -> chg O p q -> cle m y m' y' -> TB a0 q m' y').
       { intros O HO a0. apply wk_chg; [apply JBchg; auto|apply TAchg; intros i Hi; apply HO in Hi; tauto]. }
-      pose proof (upd_level qu IHu sc cur base Hfr ce x n2 q2 s2 cu n3 s3 Ec1 Hatu nv A3 A4 rho w st (fk2 ++ F0) K KC n0 hi o ko P pend
+      pose proof (upd_level qu IHu sc cur base Hfr ce pt n2 cp bs n2' q2 s2 cu n3 s3 Ep Hatp Ec1 Hatu nv A4 rho w st (fk2 ++ F0) K KC n0 hi o ko P pend
                 (fun (_ : jv) u => (fst (extf w u), snd (extf w u), u)) (fun i => i = lo \/ base + n3 <= i < hi) o2 z2 TB) as HU.
       cbv zeta in HU. fold lo in HU.
-      refine (HU ltac:(lia) ltac:(unfold hi; lia) Hko Hoo ltac:(simpl in Ho2; lia) HK1 HK2 Hkl S1' _ _ _ _ a vs2 m2 Hj2 Hg2 ltac:(simpl in Ho2; lia) _ _ _ EfC).
+      refine (HU ltac:(lia) ltac:(unfold hi; lia) Hko Hoo ltac:(simpl in Ho2; lia) HK1 HK2 Hkl S1' _ _ _ _ _ a vs2 m2 Hj2 Hg2 ltac:(simpl in Ho2; lia) _ eq_refl _ _ _ EfC).
       + intros i Hi. exact Hi.
-      + intros a0 p m y [(_ & _ & _ & Hp3) Hg]. apply wk_intro; [apply JBTA|split; auto].
+      + intros rho3 a0 p m y [(_ & _ & _ & Hp3) Hg]. apply wk_intro; [apply JBTA|split; auto].
+      + intros a0 p m y Hq Hg. apply wk_intro; [apply JBTA|split; auto].
       + intros a0 p q m y m' y' Hq C Hm. eapply TBchg; [|exact Hq|exact C|exact Hm]. simpl. unfold lo, hi in *. intros; lia.
       + (* one update output u: dup; store acc; extract *)
-        intros u g3 fk3 vs3 m3 o3 z3 os3 x3 g3' [Hj3 Hg3] Ho3 Ht3 Hfk3 Efc. inversion Efc; subst os3 x3 g3'. clear Efc. simpl in Ho3, Ht3.
+        intros bnds Hpm Hk3 u g3 fk3 vs3 m3 o3 z3 os3 x3 g3' [Hj3 Hg3] Ho3 Ht3 Hfk3 Efc. inversion Efc; subst os3 x3 g3'. clear Efc. simpl in Ho3, Ht3.
         pose proof Hj3 as (E3 & Hn3 & Hl3 & Hp3).
         destruct (update_some vs3 lo (SV u)) as [vs4 U4]; [unfold lo, hi in *; simpl in Ho2; lia|].
         destruct (update_spec _ _ _ _ U4) as (UL4 & UN4 & UO4).
         assert (Hnk : ~ kept sc ce3 lo).
-        { intros Hk. apply (kept_add_var _ _ _ _ _ _ (Hcur n2)) in Hk. destruct Hk as [Hk|Hk]; [unfold lo in *; lia|apply Hkl in Hk; lia]. }
+        { intros Hk. apply Hk3 in Hk. destruct Hk as [Hk|Hk]; [unfold lo in *; lia|apply Hkl in Hk; lia]. }
         set (P3 := Jstd sc ce rho n0 lo o P) in *.
-        assert (HJ4 : Jstd sc ce3 ((x, BV w) :: rho) n0 (base + S n2) o2 P3 vs4 m3 z3).
+        assert (HJ4 : Jstd sc ce3 (bnds ++ rho) n0 (base + n2') o2 P3 vs4 m3 z3).
         { eapply Jstd_update_gen; [exact Hj3|exact U4|exact Hnk|].
           eapply (Jstd_update _ _ _ _ _ _ lo hi); [exact S1'|exact Hp3|exact U4|unfold lo, hi; lia|lia]. }
         eapply G_pre; [one st_dup; one st_store; apply steps_refl|eapply chg_update; [exact U4|simpl; auto]|cl|].
-        set (JC := fun a' m (y : gx) => Jstd sc ce3 ((x, BV w) :: rho) n0 (base + S n2) o2 P3 a' m y /\ nth_error a' lo = Some (SV u)).
+        set (JC := fun a' m (y : gx) => Jstd sc ce3 (bnds ++ rho) n0 (base + n2') o2 P3 a' m y /\ nth_error a' lo = Some (SV u)).
         assert (JCk : forall p q m y m' y', JC p m y -> keepX K p q -> cle m y m' y' -> JC q m' y').
         { intros p q m y m' y' [(Eq & Hnq & Hlq & Hpq) Hgq] Kp Hm. split.
           - split; [eapply envOK_keep; [exact Eq|exact Kp|]|].
-            + intros i Hi. apply (kept_add_var _ _ _ _ _ _ (Hcur n2)) in Hi. destruct Hi as [->|Hi]; [apply HK1; unfold lo, hi; lia|auto].
+            + intros i Hi. apply Hk3 in Hi. destruct Hi as [Hi|Hi]; [apply HK1; unfold lo, hi; lia|auto].
             + split; [destruct Hm; lia|]. split; [destruct Kp; lia|].
               exact (Jstd_stable_cx _ _ _ _ _ _ _ _ _ _ _ S1' S2' HK2 HK0 _ _ _ _ _ _ Hpq Kp Hm).
           - rewrite <- Hgq. symmetry. apply Kp. apply HK1. unfold lo, hi. lia. }
@@ -1837,20 +2065,20 @@ Proof.
         assert (PDK : forall p q m y m' y', PD p m y -> keepX (match fk3 with [] => KC | _ :: _ => K end) p q -> cle m y m' y' -> PD q m' y').
         { unfold PD. destruct fk3; simpl; [apply TBK|apply JCk]. }
         assert (PD0 : PD vs4 m3 z3) by (apply wk_intro; [exact JCTB|split; [exact HJ4|exact UN4]]).
-        unfold extf. destruct ext as [e|].
+        unfold extf. destruct ext as [e|]; [rewrite Hpm|].
         * set (cbx := cbody {| g_sc := sc; g_pc := pend; g_st := st; g_base := fk2 ++ F0;
-                               g_own := fun i => i = lo \/ base + S n2 <= i < hi \/ o2 <= i;
+                               g_own := fun i => i = lo \/ base + n2' <= i < hi \/ o2 <= i;
                                g_keep := K; g_keep0 := KC; g_ce := ce3; g_n0 := n0; g_off := o2; g_koff := ko; g_ctr := ctr z2 |}
                             (fun i => i = lo \/ base + n3 <= i < hi) ce3 fk3 o3 (ctr z3)).
           apply (impl_body fu e IHx sc cur base Hfr ce3 (S (S q3)) n3 s3 cx nv' sn' Hx Hatx cbx
-                   ((x, BV w) :: rho) u vs4 m3 o3 z3 PD); subst cbx; simpl.
+                   (bnds ++ rho) u vs4 m3 o3 z3 PD); subst cbx; simpl.
           -- reflexivity.
           -- reflexivity.
           -- reflexivity.
           -- reflexivity.
           -- intros i [Hi|Hi]; [left; right; unfold hi; lia|right; lia].
           -- intros; apply HK1; unfold lo, hi; lia.
-          -- intros i Hi. apply (kept_add_var _ _ _ _ _ _ (Hcur n2)) in Hi. destruct Hi as [->|Hi]; [apply HK1; unfold lo, hi; lia|auto].
+          -- intros i Hi. apply Hk3 in Hi. destruct Hi as [Hi|Hi]; [apply HK1; unfold lo, hi; lia|auto].
           -- intros i Hi. exact (wk_K _ _ _ _ HKC Hi).
           -- destruct HJ4 as (E4 & _). eapply envOK_lim; eauto. lia.
           -- lia.
@@ -1866,7 +2094,7 @@ Proof.
              ++ intros p q m y m' y' Hq C Hm. eapply TBchg; [|exact Hq|exact C|exact Hm]. simpl. unfold lo, hi in *. simpl in Ho2. intros; lia.
           -- exact PDK.
           -- exact PD0.
-        * destruct Hx as [-> ->]. cbn [fst snd].
+        * destruct Hx as (-> & -> & _). cbn [fst snd].
           eapply G_single with (o3 := o3); [simpl g_pc; simpl g_st; simpl g_base; simpl g_sc; unfold pend; simpl; rewrite Nat.add_0_r; apply steps_refl
                            |apply chg_refl|cl|simpl; destruct (update_spec _ _ _ _ U4); lia|].
           intros vs5 n5 g5 Kp L5. exact (PDK _ _ _ _ _ _ PD0 Kp L5).
@@ -3376,6 +3604,55 @@ Proof.
   - intros s0. apply Tend_sub; auto. subst cbx c; simpl. intros; lia.
 Qed.
 
+(* a native with one argument: store v; argument a; load v; call *)
+Lemma impl_call1 : forall f a, Impl a -> Impl (QCall1 f a).
+Proof.
+  intros f a IHa. impl_intro.
+  destruct (comp_call1_inv _ _ _ _ _ _ _ _ _ _ _ _ Hc) as (Hlt & Hce & cb & nb & Eb & -> & ->). clear Hc.
+  set (cb' := arg_code (cur, nv) (S pc) sn cb nb) in *.
+  std_facts. pose proof (conj S1 S2) as HS. destruct (stable_sub _ _ _ _ _ _ _ _ _ _ _ _ _ _ HS) as [S1' S2'].
+  assert (HJ0 : Jstd sc ce rho n0 (base + nv) o P vs n g) by (split; auto).
+  uncons Hat A0. destruct (code_at_app _ _ _ _ Hat) as [Hata Hat3]. uncons Hat3 A1. uncons Hat3 A2.
+  set (pL := S pc + length cb') in *.
+  assert (Epc : pc + length (Istore (cur, nv) :: cb' ++ [Iload (cur, nv); Icall (NF1 f)]) = S (S pL)).
+  { simpl. rewrite !app_length. simpl. unfold pL. lia. }
+  subst c. rewrite Epc in *.
+  set (c := ctx_of sc (S (S pL)) st fk (base + nv) (base + S nv) o ko K K0 ce n0 (ctr g)).
+  destruct (update_some vs (base + nv) (SV v)) as [vs1 U]; [lia|].
+  destruct (update_spec _ _ _ _ U) as (UL & UN & UO).
+  assert (HJ1 : Jstd sc ce rho n0 (base + nv) o P vs1 n g) by (eapply Jstd_update; [exact S1'|exact HJ0|exact U|lia|lia]).
+  eapply G_pre; [eapply steps_step; [eapply st_store; [exact A0|apply Hcur|exact U]|apply steps_refl]
+                |eapply chg_update; [exact U|simpl; lia]|cl|].
+  set (cbx := ctx_of sc (S (S pL)) st fk (base + S nv) (base + S nv) o ko K K0 ce n0 (ctr g)).
+  assert (HSb : stable cbx P).
+  { split.
+    - intros a0 b m g0 m' g' Hp C Hm. eapply S1; [exact Hp| |exact Hm]. eapply chg_mono; [|exact C]. subst cbx; simpl. intros; lia.
+    - exact S2. }
+  cbn [Den.den1].
+  assert (HT : G cbx (fst (bind (den a rho v) (fun w => of_sum (n_fn1 nt f v w))))
+                 (Tend cbx (snd (bind (den a rho v) (fun w => of_sum (n_fn1 nt f v w)))) P)
+                 (N sc (S pc) st fk vs1 n o g)).
+  { refine (arg_step a IHa sc cur base Hfr ce (S pc) sn cb nb sn' nv Hlt Hce Eb Hata
+              (fun w => of_sum (n_fn1 nt f v w)) v rho (S (S pL)) st st fk (S nv) (base + S nv) o ko K K0 n0 (base + nv) P vs1 n g
+              HSb HJ1 UN (le_n _) Hko Hoo ltac:(lia) ltac:(lia) ltac:(apply HK1; lia) ltac:(intros; lia) HK2 HK0 _).
+    intros w fk3 vs3 n3 o3 g3 K03 P3 c3 [S31 S32] HJ3 HG3 HK03 Hko3. pose proof HJ3 as (_ & _ & Hl3 & HP3).
+    fold cb'. fold pL.
+    destruct (n_fn1 nt f v w) as [u|e] eqn:E; cbn [of_sum fst snd].
+    - apply G_single with (vs3 := vs3) (n3 := n3) (o3 := o3) (g3 := g3).
+      + subst c3; simpl. eapply steps_step; [eapply st_load; [exact A1|apply Hcur|exact HG3]|]. one st_call1_ok. apply steps_refl.
+      + apply chg_refl.
+      + cl.
+      + simpl; lia.
+      + intros vs4 n4 g4 Kp L. eapply S32; eauto.
+    - eapply G_end; [eapply steps_step; [eapply st_load; [exact A1|apply Hcur|exact HG3]|]; one st_call1_err; apply steps_refl
+                    |apply chg_refl|cl|reflexivity|exact HP3]. }
+  refine (G_sub nt code cbx c _ _ eq_refl eq_refl eq_refl eq_refl _ _ _ (le_n _) (le_n _) (le_n _) _ _ _ HT).
+  - subst cbx c; simpl. intros; lia.
+  - intros o3 a0 b Kp. exact Kp.
+  - intros a0 b Kp. exact Kp.
+  - intros s0. apply Tend_sub; auto. subst cbx c; simpl. intros; lia.
+Qed.
+
 Lemma impl_slice : forall t a b, Impl t -> Impl a -> Impl b -> Impl (QSlice t a b).
 Proof.
   intros t a b IHt IHa IHb. impl_intro.
@@ -3673,218 +3950,6 @@ Qed.
 
 
 (* ---- destructuring patterns ---- *)
-
-(* the variables bound by a pattern hold the values of its bindings (parallel lists, the last binding first) *)
-Definition bound_ok (base cur lo hi : nat) (vs : list sv) (b : list (vname * var)) (bnds : venv) : Prop :=
-  Forall2 (fun cb sb => fst cb = fst sb /\ exists k w, snd cb = (cur, k) /\ lo <= k < hi /\ snd sb = BV w /\
-                        nth_error vs (base + k) = Some (SV w)) b bnds.
-Lemma bound_ok_mono : forall base cur lo hi lo' hi' vs vs' b bnds, bound_ok base cur lo hi vs b bnds -> lo' <= lo -> hi <= hi' ->
-  (forall k, lo <= k < hi -> nth_error vs' (base + k) = nth_error vs (base + k)) -> bound_ok base cur lo' hi' vs' b bnds.
-Proof.
-  intros base cur lo hi lo' hi' vs vs' b bnds H Hlo Hhi Hs. induction H as [|cb sb b' bnds' (E & k & w & Ek & Hk & Ew & Hn) _ IH]; constructor; auto.
-  split; [exact E|]. exists k, w. split; [exact Ek|]. split; [lia|]. split; [exact Ew|]. rewrite Hs by lia. exact Hn.
-Qed.
-Lemma bound_ok_app : forall base cur lo hi vs b1 bnds1 b2 bnds2, bound_ok base cur lo hi vs b1 bnds1 -> bound_ok base cur lo hi vs b2 bnds2 ->
-  bound_ok base cur lo hi vs (b1 ++ b2) (bnds1 ++ bnds2).
-Proof. intros. apply Forall2_app; auto. Qed.
-
-Definition pat_res (sc : list frame) (pc' : nat) (st : list sv) (fk : list fork) (n o : nat) (g : gx) (base cur lo hi : nat)
-  (vs : list sv) (b : list (vname * var)) (r : venv + err0) (s : state) : Prop :=
-  match r with
-  | inl bnds => exists vs', steps s (N sc pc' st fk vs' n o g) /\ chg (fun i => base + lo <= i < base + hi) vs vs' /\
-                            bound_ok base cur lo hi vs' b bnds
-  | inr e => exists vs', steps s (B (Some (VE (err_of e))) fk vs' n g) /\ chg (fun i => base + lo <= i < base + hi) vs vs'
-  end.
-
-Lemma parr_match_cons : forall p r i w, parr_match nt (ACons p r) i w =
-  match index_arr nt w i with
-  | inl wi => match pmatch nt p wi with
-              | inl b1 => match parr_match nt r (S i) w with inl b2 => inl (b2 ++ b1) | inr e => inr e end
-              | inr e => inr e end
-  | inr e => inr e
-  end.
-Proof. reflexivity. Qed.
-Lemma pobj_match_key : forall k p r w, pobj_match nt (OKey k p r) w =
-  match n_index nt w (VStr k) with
-  | inl wk => match pmatch nt p wk with
-              | inl b1 => match pobj_match nt r w with inl b2 => inl (b2 ++ b1) | inr e => inr e end
-              | inr e => inr e end
-  | inr e => inr e
-  end.
-Proof. reflexivity. Qed.
-Lemma pobj_match_keyvar : forall k x p r w, pobj_match nt (OKeyVar k x p r) w =
-  match n_index nt w (VStr k) with
-  | inl wk => match pmatch nt p wk with
-              | inl b1 => match pobj_match nt r w with inl b2 => inl (b2 ++ b1 ++ [(x, BV wk)]) | inr e => inr e end
-              | inr e => inr e end
-  | inr e => inr e
-  end.
-Proof. reflexivity. Qed.
-
-Lemma pat_run : forall sc cur base, frameOK sc cur base ->
-  (forall p nv c b n', pcomp p cur nv = (c, b, n') -> forall pc, code_at pc c ->
-     forall w st fk vs n o g, base + n' <= length vs ->
-     pat_res sc (pc + length c) st fk n o g base cur nv n' vs b (pmatch nt p w) (N sc pc (SV w :: st) fk vs n o g)) /\
-  (forall l i kv nv c b n', parr_comp l i (cur, kv) cur nv = (c, b, n') -> kv < nv -> forall pc, code_at pc c ->
-     forall w st fk vs n o g, base + n' <= length vs -> nth_error vs (base + kv) = Some (SV w) ->
-     pat_res sc (pc + length c) st fk n o g base cur nv n' vs b (parr_match nt l i w) (N sc pc st fk vs n o g)) /\
-  (forall l kv nv c b n', pobj_comp l (cur, kv) cur nv = (c, b, n') -> kv < nv -> forall pc, code_at pc c ->
-     forall w st fk vs n o g, base + n' <= length vs -> nth_error vs (base + kv) = Some (SV w) ->
-     pat_res sc (pc + length c) st fk n o g base cur nv n' vs b (pobj_match nt l w) (N sc pc st fk vs n o g)).
-Proof.
-  intros sc cur base Hfr. pose proof (frameOK_cur _ _ _ Hfr) as Hcur.
-  apply pattern_mutind.
-  - (* $x *)
-    intros x nv c b n' Hc pc Hat w st fk vs n o g Hlen. simpl in Hc. inversion Hc; subst c b n'. clear Hc. uncons Hat A0.
-    destruct (update_some vs (base + nv) (SV w)) as [vs1 U]; [lia|]. destruct (update_spec _ _ _ _ U) as (UL & UN & UO).
-    cbn [pmatch parr_match pobj_match]. unfold pat_res. exists vs1. split; [simpl; replace (pc + 1) with (S pc) by lia; one st_store; apply steps_refl|].
-    split; [eapply chg_update; [exact U|simpl; lia]|].
-    constructor; [|constructor]. split; [reflexivity|]. exists nv, w. simpl. auto 6 with arith.
-  - (* [ ... ] *)
-    intros l IH nv c b n' Hc pc Hat w st fk vs n o g Hlen. simpl in Hc.
-    destruct (parr_comp l 0 (cur, nv) cur (S nv)) as [[c0 b0] n0] eqn:E. inversion Hc; subst c b n'. clear Hc. uncons Hat A0.
-    pose proof (proj1 (proj2 pcomp_nvars) _ _ _ _ _ _ _ _ E) as Mn.
-    destruct (update_some vs (base + nv) (SV w)) as [vs1 U]; [lia|]. destruct (update_spec _ _ _ _ U) as (UL & UN & UO).
-    pose proof (IH 0 nv (S nv) c0 b0 n0 E (le_n _) (S pc) Hat w st fk vs1 n o g ltac:(lia) UN) as HR.
-    change (pmatch nt (PArr l) w) with (parr_match nt l 0 w). simpl length. replace (pc + S (length c0)) with (S pc + length c0) by lia.
-    assert (C1 : chg (fun i => base + nv <= i < base + n0) vs vs1) by (eapply chg_update; [exact U|simpl; lia]).
-    destruct (parr_match nt l 0 w) as [bnds|e]; unfold pat_res in *.
-    + destruct HR as (vs' & St & Ch & Hb). exists vs'. split; [one st_store; exact St|].
-      split; [eapply chg_trans; [exact C1|eapply chg_mono; [|exact Ch]; simpl; intros; lia]|].
-      eapply bound_ok_mono; [exact Hb|lia|lia|auto].
-    + destruct HR as (vs' & St & Ch). exists vs'. split; [one st_store; exact St|].
-      eapply chg_trans; [exact C1|eapply chg_mono; [|exact Ch]; simpl; intros; lia].
-  - (* { ... } *)
-    intros l IH nv c b n' Hc pc Hat w st fk vs n o g Hlen. simpl in Hc.
-    destruct (pobj_comp l (cur, nv) cur (S nv)) as [[c0 b0] n0] eqn:E. inversion Hc; subst c b n'. clear Hc. uncons Hat A0.
-    pose proof (proj2 (proj2 pcomp_nvars) _ _ _ _ _ _ _ E) as Mn.
-    destruct (update_some vs (base + nv) (SV w)) as [vs1 U]; [lia|]. destruct (update_spec _ _ _ _ U) as (UL & UN & UO).
-    pose proof (IH nv (S nv) c0 b0 n0 E (le_n _) (S pc) Hat w st fk vs1 n o g ltac:(lia) UN) as HR.
-    change (pmatch nt (PObj l) w) with (pobj_match nt l w). simpl length. replace (pc + S (length c0)) with (S pc + length c0) by lia.
-    assert (C1 : chg (fun i => base + nv <= i < base + n0) vs vs1) by (eapply chg_update; [exact U|simpl; lia]).
-    destruct (pobj_match nt l w) as [bnds|e]; unfold pat_res in *.
-    + destruct HR as (vs' & St & Ch & Hb). exists vs'. split; [one st_store; exact St|].
-      split; [eapply chg_trans; [exact C1|eapply chg_mono; [|exact Ch]; simpl; intros; lia]|].
-      eapply bound_ok_mono; [exact Hb|lia|lia|auto].
-    + destruct HR as (vs' & St & Ch). exists vs'. split; [one st_store; exact St|].
-      eapply chg_trans; [exact C1|eapply chg_mono; [|exact Ch]; simpl; intros; lia].
-  - (* no more elements *)
-    intros i kv nv c b n' Hc Hkv pc Hat w st fk vs n o g Hlen Hv. simpl in Hc. inversion Hc; subst c b n'.
-    cbn [pmatch parr_match pobj_match]. unfold pat_res. exists vs. simpl. rewrite Nat.add_0_r. split; [apply steps_refl|]. split; [apply chg_refl|constructor].
-  - (* an element *)
-    intros p IHp r IHr i kv nv c b n' Hc Hkv pc Hat w st fk vs n o g Hlen Hv. simpl in Hc.
-    destruct (pcomp p cur nv) as [[c1 b1] n1] eqn:E1. destruct (parr_comp r (S i) (cur, kv) cur n1) as [[c2 b2] n2] eqn:E2.
-    inversion Hc; subst c b n'. clear Hc.
-    pose proof (proj1 pcomp_nvars _ _ _ _ _ _ E1) as M1. pose proof (proj1 (proj2 pcomp_nvars) _ _ _ _ _ _ _ _ E2) as M2.
-    uncons Hat A0. uncons Hat A1. destruct (code_at_app _ _ _ _ Hat) as [Hat1 Hat2].
-    rewrite parr_match_cons.
-    assert (Epc : pc + length (Iload (cur, kv) :: Iindexarray i :: c1 ++ c2) = S (S pc) + length c1 + length c2) by (simpl; rewrite app_length; lia).
-    rewrite Epc.
-    destruct (index_arr nt w i) as [wi|e] eqn:Ei.
-    2:{ unfold pat_res. exists vs. split; [eapply steps_step; [eapply st_load; [exact A0|apply Hcur|exact Hv]|]; one st_indexarray_err; apply steps_refl|apply chg_refl]. }
-    pose proof (IHp nv c1 b1 n1 E1 (S (S pc)) Hat1 wi st fk vs n o g ltac:(lia)) as H1.
-    destruct (pmatch nt p wi) as [bn1|e]; unfold pat_res in H1.
-    2:{ destruct H1 as (vs1 & St1 & Ch1). unfold pat_res. exists vs1.
-        split; [eapply steps_step; [eapply st_load; [exact A0|apply Hcur|exact Hv]|]; one st_indexarray_ok; exact St1|].
-        eapply chg_mono; [|exact Ch1]. simpl; intros; lia. }
-    destruct H1 as (vs1 & St1 & Ch1 & Hb1).
-    assert (Hv1 : nth_error vs1 (base + kv) = Some (SV w)) by (rewrite <- (proj2 Ch1) by lia; exact Hv).
-    pose proof (IHr (S i) kv n1 c2 b2 n2 E2 ltac:(lia) (S (S pc) + length c1) Hat2 w st fk vs1 n o g ltac:(destruct Ch1; lia) Hv1) as H2.
-    destruct (parr_match nt r (S i) w) as [bn2|e]; unfold pat_res in H2 |- *.
-    + destruct H2 as (vs2 & St2 & Ch2 & Hb2). exists vs2.
-      split; [eapply steps_step; [eapply st_load; [exact A0|apply Hcur|exact Hv]|]; one st_indexarray_ok; eapply steps_trans; [exact St1|exact St2]|].
-      split; [eapply chg_trans; eapply chg_mono; [|exact Ch1| |exact Ch2]; simpl; intros; lia|].
-      apply bound_ok_app.
-      * eapply bound_ok_mono; [exact Hb2|lia|lia|auto].
-      * eapply bound_ok_mono; [exact Hb1|lia|lia|]. intros k Hk. symmetry. apply (proj2 Ch2). lia.
-    + destruct H2 as (vs2 & St2 & Ch2). exists vs2.
-      split; [eapply steps_step; [eapply st_load; [exact A0|apply Hcur|exact Hv]|]; one st_indexarray_ok; eapply steps_trans; [exact St1|exact St2]|].
-      eapply chg_trans; eapply chg_mono; [|exact Ch1| |exact Ch2]; simpl; intros; lia.
-  - (* no more entries *)
-    intros kv nv c b n' Hc Hkv pc Hat w st fk vs n o g Hlen Hv. simpl in Hc. inversion Hc; subst c b n'.
-    cbn [pmatch parr_match pobj_match]. unfold pat_res. exists vs. simpl. rewrite Nat.add_0_r. split; [apply steps_refl|]. split; [apply chg_refl|constructor].
-  - (* k: p *)
-    intros k p IHp r IHr kv nv c b n' Hc Hkv pc Hat w st fk vs n o g Hlen Hv. simpl in Hc.
-    destruct (pcomp p cur nv) as [[c1 b1] n1] eqn:E1. destruct (pobj_comp r (cur, kv) cur n1) as [[c2 b2] n2] eqn:E2.
-    inversion Hc; subst c b n'. clear Hc.
-    pose proof (proj1 pcomp_nvars _ _ _ _ _ _ E1) as M1. pose proof (proj2 (proj2 pcomp_nvars) _ _ _ _ _ _ _ E2) as M2.
-    uncons Hat A0. uncons Hat A1. destruct (code_at_app _ _ _ _ Hat) as [Hat1 Hat2].
-    rewrite pobj_match_key.
-    assert (Epc : pc + length (Iload (cur, kv) :: Iindex (VStr k) :: c1 ++ c2) = S (S pc) + length c1 + length c2) by (simpl; rewrite app_length; lia).
-    rewrite Epc.
-    destruct (n_index nt w (VStr k)) as [wi|e] eqn:Ei.
-    2:{ unfold pat_res. exists vs. split; [eapply steps_step; [eapply st_load; [exact A0|apply Hcur|exact Hv]|]; one st_index_err; apply steps_refl|apply chg_refl]. }
-    pose proof (IHp nv c1 b1 n1 E1 (S (S pc)) Hat1 wi st fk vs n o g ltac:(lia)) as H1.
-    destruct (pmatch nt p wi) as [bn1|e]; unfold pat_res in H1.
-    2:{ destruct H1 as (vs1 & St1 & Ch1). unfold pat_res. exists vs1.
-        split; [eapply steps_step; [eapply st_load; [exact A0|apply Hcur|exact Hv]|]; one st_index_ok; exact St1|].
-        eapply chg_mono; [|exact Ch1]. simpl; intros; lia. }
-    destruct H1 as (vs1 & St1 & Ch1 & Hb1).
-    assert (Hv1 : nth_error vs1 (base + kv) = Some (SV w)) by (rewrite <- (proj2 Ch1) by lia; exact Hv).
-    pose proof (IHr kv n1 c2 b2 n2 E2 ltac:(lia) (S (S pc) + length c1) Hat2 w st fk vs1 n o g ltac:(destruct Ch1; lia) Hv1) as H2.
-    destruct (pobj_match nt r w) as [bn2|e]; unfold pat_res in H2 |- *.
-    + destruct H2 as (vs2 & St2 & Ch2 & Hb2). exists vs2.
-      split; [eapply steps_step; [eapply st_load; [exact A0|apply Hcur|exact Hv]|]; one st_index_ok; eapply steps_trans; [exact St1|exact St2]|].
-      split; [eapply chg_trans; eapply chg_mono; [|exact Ch1| |exact Ch2]; simpl; intros; lia|].
-      apply bound_ok_app.
-      * eapply bound_ok_mono; [exact Hb2|lia|lia|auto].
-      * eapply bound_ok_mono; [exact Hb1|lia|lia|]. intros k0 Hk. symmetry. apply (proj2 Ch2). lia.
-    + destruct H2 as (vs2 & St2 & Ch2). exists vs2.
-      split; [eapply steps_step; [eapply st_load; [exact A0|apply Hcur|exact Hv]|]; one st_index_ok; eapply steps_trans; [exact St1|exact St2]|].
-      eapply chg_trans; eapply chg_mono; [|exact Ch1| |exact Ch2]; simpl; intros; lia.
-  - (* $x: p *)
-    intros k x p IHp r IHr kv nv c b n' Hc Hkv pc Hat w st fk vs n o g Hlen Hv. simpl in Hc.
-    destruct (pcomp p cur (S nv)) as [[c1 b1] n1] eqn:E1. destruct (pobj_comp r (cur, kv) cur n1) as [[c2 b2] n2] eqn:E2.
-    inversion Hc; subst c b n'. clear Hc.
-    pose proof (proj1 pcomp_nvars _ _ _ _ _ _ E1) as M1. pose proof (proj2 (proj2 pcomp_nvars) _ _ _ _ _ _ _ E2) as M2.
-    uncons Hat A0. uncons Hat A1. uncons Hat A2. uncons Hat A3. destruct (code_at_app _ _ _ _ Hat) as [Hat1 Hat2].
-    rewrite pobj_match_keyvar.
-    assert (Epc : pc + length (Iload (cur, kv) :: Iindex (VStr k) :: Idup :: Istore (cur, nv) :: c1 ++ c2) = S (S (S (S pc))) + length c1 + length c2) by (simpl; rewrite app_length; lia).
-    rewrite Epc.
-    destruct (n_index nt w (VStr k)) as [wi|e] eqn:Ei.
-    2:{ unfold pat_res. exists vs. split; [eapply steps_step; [eapply st_load; [exact A0|apply Hcur|exact Hv]|]; one st_index_err; apply steps_refl|apply chg_refl]. }
-    destruct (update_some vs (base + nv) (SV wi)) as [vs0 U]; [lia|]. destruct (update_spec _ _ _ _ U) as (UL & UN & UO).
-    assert (C0 : chg (fun i => base + nv <= i < base + n2) vs vs0) by (eapply chg_update; [exact U|simpl; lia]).
-    assert (Hv0 : nth_error vs0 (base + kv) = Some (SV w)) by (rewrite UO by lia; exact Hv).
-    assert (St0 : steps (N sc pc st fk vs n o g) (N sc (S (S (S (S pc)))) (SV wi :: st) fk vs0 n o g)).
-    { eapply steps_step; [eapply st_load; [exact A0|apply Hcur|exact Hv]|]. one st_index_ok. one st_dup. one st_store. apply steps_refl. }
-    pose proof (IHp (S nv) c1 b1 n1 E1 (S (S (S (S pc)))) Hat1 wi st fk vs0 n o g ltac:(lia)) as H1.
-    destruct (pmatch nt p wi) as [bn1|e]; unfold pat_res in H1.
-    2:{ destruct H1 as (vs1 & St1 & Ch1). unfold pat_res. exists vs1.
-        split; [eapply steps_trans; [exact St0|exact St1]|].
-        eapply chg_trans; [exact C0|]. eapply chg_mono; [|exact Ch1]. simpl; intros; lia. }
-    destruct H1 as (vs1 & St1 & Ch1 & Hb1).
-    assert (Hv1 : nth_error vs1 (base + kv) = Some (SV w)) by (rewrite <- (proj2 Ch1) by lia; exact Hv0).
-    pose proof (IHr kv n1 c2 b2 n2 E2 ltac:(lia) (S (S (S (S pc))) + length c1) Hat2 w st fk vs1 n o g ltac:(destruct Ch1; lia) Hv1) as H2.
-    destruct (pobj_match nt r w) as [bn2|e]; unfold pat_res in H2 |- *.
-    + destruct H2 as (vs2 & St2 & Ch2 & Hb2). exists vs2.
-      split; [eapply steps_trans; [exact St0|]; eapply steps_trans; [exact St1|exact St2]|].
-      split; [eapply chg_trans; [exact C0|]; eapply chg_trans; eapply chg_mono; [|exact Ch1| |exact Ch2]; simpl; intros; lia|].
-      apply bound_ok_app; [|apply bound_ok_app].
-      * eapply bound_ok_mono; [exact Hb2|lia|lia|auto].
-      * eapply bound_ok_mono; [exact Hb1|lia|lia|]. intros k0 Hk. symmetry. apply (proj2 Ch2). lia.
-      * constructor; [|constructor]. split; [reflexivity|]. exists nv, wi. simpl. split; [reflexivity|]. split; [lia|]. split; [reflexivity|].
-        rewrite <- (proj2 Ch2) by lia. rewrite <- (proj2 Ch1) by lia. exact UN.
-    + destruct H2 as (vs2 & St2 & Ch2). exists vs2.
-      split; [eapply steps_trans; [exact St0|]; eapply steps_trans; [exact St1|exact St2]|].
-      eapply chg_trans; [exact C0|]. eapply chg_trans; eapply chg_mono; [|exact Ch1| |exact Ch2]; simpl; intros; lia.
-Qed.
-
-Lemma envOK_add_vars : forall sc cur base, (forall k, index_of sc (cur, k) = Some (base + k)) ->
-  forall bs bnds ce rho vs n0 lim lo hi, bound_ok base cur lo hi vs bs bnds -> base + hi <= lim ->
-  envOK sc ce rho vs n0 lim -> envOK sc (add_vars ce bs) (bnds ++ rho) vs n0 lim.
-Proof.
-  intros sc cur base Hcur bs bnds ce rho vs n0 lim lo hi Hb Hlim HE.
-  induction Hb as [|[x y] [x' sb] b' bnds' (E & k & w & Ek & Hk & Ew & Hn) _ IH]; [exact HE|].
-  simpl in *. subst x' y sb. eapply envOK_add_var; [exact IH|apply Hcur|lia|exact Hn].
-Qed.
-Lemma kept_add_vars : forall sc cur base, (forall k, index_of sc (cur, k) = Some (base + k)) ->
-  forall bs bnds ce vs lo hi i, bound_ok base cur lo hi vs bs bnds -> kept sc (add_vars ce bs) i ->
-  (exists k, lo <= k < hi /\ i = base + k) \/ kept sc ce i.
-Proof.
-  intros sc cur base Hcur bs bnds ce vs lo hi i Hb. induction Hb as [|[x y] [x' sb] b' bnds' (E & k & w & Ek & Hk & Ew & Hn) _ IH]; intros Hi; [right; exact Hi|].
-  simpl in *. subst y. destruct (kept_add_var _ _ _ _ _ _ (Hcur k) Hi) as [->|Hi']; [left; exists k; auto|auto].
-Qed.
 
 Lemma impl_bindp : forall qs p qb, Impl qs -> Impl qb -> Impl (QBindP qs p qb).
 Proof.
@@ -4614,7 +4679,11 @@ Proof.
   - destruct IHs, IHi, IHu.
     assert (Ie : Popt (fun q => Impl q) e) by (destruct e; simpl in *; [exact (proj1 IHe)|exact I]).
     split; [apply impl_foreach; auto|apply implT_nt; [apply impl_foreach; auto|]].
-    destruct e as [e|]; nt_comp.
+    intros ce pe cj cur pc nv sn [[cq nv'] sn'] Hc.
+    destruct (comp_foreach_inv _ _ _ _ _ _ _ _ _ _ _ _ _ _ _ Hc) as (Hok & ci & n1 & s1 & cs & n2 & s2 & cp & bs & n2' & cu & n3 & s3 & cx & Ec & Ec0 & Ep & En & Ec1 & Hx & ->).
+    change (compg tco (QForeach s x i u e) ce None cur pc nv sn = Some (Idup :: ci ++ Istore (cur, nv) :: cs ++ cp ++ Iload (cur, nv) :: cu ++ Idup :: Istore (cur, nv) :: cx, nv', sn')).
+    cbn [compg]. rewrite Ec, Ec0, Ep, Hok, En. cbn [andb]. rewrite Ec1.
+    destruct e as [e|]; [cbn [tl_fb] in Hx; apply comp_forbid in Hx; cbn [tl_fb]; rewrite Hx; reflexivity|destruct Hx as (-> & -> & ->); reflexivity].
   - destruct IHb. split; [apply impl_label; auto|apply implT_nt; [apply impl_label; auto|nt_comp]].
   - split; [apply impl_break|apply implT_nt; [apply impl_break|nt_comp]].
   - destruct IHs, IHb. split; [apply impl_bind; auto|apply implT_bind; auto].
@@ -4637,6 +4706,8 @@ Proof.
   - destruct IHt, IHq. split; [apply impl_indexq; auto|apply implT_nt; [apply impl_indexq; auto|]].
     intros ? ? ? ? ? ? ? ? Hcc. exact Hcc.
   - destruct IHt, IHa, IHb. split; [apply impl_slice; auto|apply implT_nt; [apply impl_slice; auto|]].
+    intros ? ? ? ? ? ? ? ? Hcc. exact Hcc.
+  - destruct IHa. split; [apply impl_call1; auto|apply implT_nt; [apply impl_call1; auto|]].
     intros ? ? ? ? ? ? ? ? Hcc. exact Hcc.
 Qed.
 
